@@ -112,7 +112,12 @@ func (g *wgen) method(kind string, d int) []string {
 	spring := g.spring && kind == "class"
 	if spring && r.Chance(3, 4) {
 		g.use("annotation-on-method")
-		head += g.springMapping() + "\n"
+		if g.slashBase && r.Chance(1, 2) {
+			g.use("spring-mapping")
+			head += "@" + g.pick([]string{"GetMapping", "PostMapping", "PutMapping", "DeleteMapping", "RequestMapping"}) + g.pick([]string{"(\"\")", "(value = \"\")", "(\"\")", "(value = \"\", produces = \"a/b\")"}) + "\n"
+		} else {
+			head += g.springMapping() + "\n"
+		}
 		if r.Chance(1, 4) {
 			head += g.pick([]string{"@ResponseBody", "@Override", "@Deprecated(since = \"1\")"}) + "\n"
 		}
@@ -497,7 +502,12 @@ func (g *wgen) typeDecl(mods string, d int, top bool) []string {
 		if r.Chance(1, 3) {
 			head += g.typeParams()
 		}
-		if r.Chance(1, 2) {
+		var twin []string
+		if r.Chance(1, 8) {
+			var ext string
+			ext, twin = g.sameNameParent(name)
+			head += " extends " + ext
+		} else if r.Chance(1, 2) {
 			head += " extends " + g.refType(2)
 		}
 		if r.Chance(1, 2) {
@@ -507,7 +517,13 @@ func (g *wgen) typeDecl(mods string, d int, top bool) []string {
 			g.use("sealed")
 			head += " permits " + g.typeList(r.Range(1, 3))
 		}
-		out = withBlock(head, g.members("class", d, nm), "")
+		body := g.members("class", d, nm)
+		if r.Bool() {
+			body = append(twin, body...)
+		} else {
+			body = append(body, twin...)
+		}
+		out = withBlock(head, body, "")
 	}
 	g.declared = append(g.declared, name)
 	return out
@@ -600,7 +616,21 @@ func (g *wgen) unit() []string {
 			g.use("spring-controller")
 			order := r.Intn(4)
 			rc := "@" + g.pick([]string{"RestController", "Controller", "RestController(\"n\")", "org.springframework.stereotype.Controller"})
+			g.slashBase = r.Chance(1, 3)
+			if g.slashBase {
+				// a base path that ends with '/' (or the bare class mapping, whose base is "/"), with handlers whose own
+				// path is the empty string
+				g.use("spring-base-path-trailing-slash")
+				base := "@RequestMapping" + g.pick([]string{"(\"/items/\")", "", "(value = \"/a/b/\")", "(\"/\")", "()", "(path = \"/x/\")", "(value = \"/用户/\", produces = \"x\")"})
+				if r.Bool() {
+					mods = rc + "\n" + base + "\n"
+				} else {
+					mods = base + "\n" + rc + "\n"
+				}
+				order = -1
+			}
 			switch order {
+			case -1:
 			case 0:
 				mods = rc + "\n" + g.springMapping() + "\n"
 			case 1:
@@ -642,12 +672,42 @@ func (g *wgen) classDecl(mods string) []string {
 	defer func() { g.curType = saved }()
 	g.curType = name
 	head := mods + "class " + name
-	if r.Chance(1, 4) {
+	var twin []string
+	if r.Chance(1, 8) {
+		var ext string
+		ext, twin = g.sameNameParent(name)
+		head += " extends " + ext
+	} else if r.Chance(1, 4) {
 		head += " extends " + g.refType(1)
 	}
 	if r.Chance(1, 3) {
 		head += " implements " + g.typeList(r.Range(1, 2))
 	}
 	g.declared = append(g.declared, name)
-	return withBlock(head, g.members("class", 2, r.Range(1, 6)), "")
+	return withBlock(head, append(g.members("class", 2, r.Range(1, 6)), twin...), "")
+}
+
+// sameNameParent: "class Service extends lib.Service": the parent has the simple name of the class itself, lives in
+// another package and is written with its package (optionally with type arguments); the class calls inherited methods
+// through super without declaring them itself. Returns the extends text and the member that makes the super calls.
+func (g *wgen) sameNameParent(name string) (string, []string) {
+	r := g.r
+	g.use("extends-same-simple-name-other-package")
+	ext := g.pick([]string{"lib", "other.pkg", "com.acme.base", "a.b.c"}) + "." + name
+	switch r.Intn(4) {
+	case 0:
+		ext += "<String>"
+	case 1:
+		ext += "<" + g.refTypeNoAnno() + ", Integer>"
+	}
+	g.seq++
+	m := "inherited" + itoa(g.seq)
+	body := []string{"super." + m + "Stop();"}
+	if r.Bool() {
+		body = append(body, "int "+g.lname()+" = super."+m+"Count("+g.expr(2).s+");")
+	}
+	if r.Bool() {
+		body = append(body, "super.<String>"+m+"Generic();")
+	}
+	return ext, withBlock(g.pick([]string{"public ", "", "protected ", "private "})+"void "+m+"Restart()", body, "")
 }
